@@ -11,6 +11,7 @@ import (
 	"fmt"
 	"os"
 	"path/filepath"
+	"strings"
 	"time"
 
 	"verifharness/vh"
@@ -56,6 +57,8 @@ func main() {
 	runs := flag.Int("runs", 8, "free: number of independent runs (fresh store each)")
 	workers := flag.Int("workers", 3, "free: concurrent sessions per run")
 	units := flag.Int("units", 10, "free: program units (autocommit statement or transaction) per session")
+	uniq := flag.String("uniq", "", "comma separated case files written by TLC from spec/SQLUniq.tla (composite unique indexes)")
+	catf := flag.String("cat", "", "behaviours printed by TLC from spec/SQLCat.tla (catalog visibility across sessions)")
 	par := flag.Int("par", 6, "behaviours replayed in parallel (each on its own store)")
 	selftest := flag.Bool("selftest", false, "corrupt one expected value (binding self-test)")
 	flag.Parse()
@@ -70,6 +73,10 @@ func main() {
 	switch {
 	case *replay != "":
 		runReplay(*replay, *dir, *selftest, *par, res)
+	case *uniq != "":
+		runUniq(strings.Split(*uniq, ","), *dir, res)
+	case *catf != "":
+		runCat(*catf, *dir, *par, res)
 	case *free != "":
 		runFree(*free, *dir, *seed, *runs, *workers, *units, res)
 	default:
